@@ -2,4 +2,4 @@
 From Coq Require Import Extraction ExtrOcamlBasic.
 From AN Require Import Model.Svc.
 Extraction Language OCaml.
-Extraction "../ocaml/service/gen.ml" run_ops denote delay sem proj leaves polled conj_ready beh_of.
+Extraction "../ocaml/service/gen.ml" run_ops denote delay sem proj leaves polled conj_ready beh_of run_fac fsem fleaves fbeh_of new_events.
